@@ -5,6 +5,7 @@ import (
 	"go/ast"
 	"go/constant"
 	"go/types"
+	"regexp"
 	"strings"
 )
 
@@ -375,6 +376,15 @@ func (ex *Exec) callWith(c *ast.CallExpr, calleeName string, con *Contract, sig 
 	pre := ex.st.clone()
 	ex.callOrd[calleeName]++
 	ord := ex.callOrd[calleeName]
+	// an interface contract (dynamic call): its preconditions are asserted but not assumed, and each of its ensures is
+	// assumed under the preconditions that share a tag with it (or carry none) - the same antecedent under which every
+	// implementation proves that ensures
+	dynamic := con != nil && fi == nil && ex.P.IfaceContracts[calleeName] == con
+	type reqT struct {
+		tags []string
+		t    Term
+	}
+	var dynReqs []reqT
 	if con != nil {
 		for k, cl := range con.Of("requires") {
 			env := &SpecEnv{st: ex.st, old: pre, names: names, pkg: pkgOfContract(ex.P, con, fi)}
@@ -387,7 +397,15 @@ func (ex *Exec) callWith(c *ast.CallExpr, calleeName string, con *Contract, sig 
 			if id == "" {
 				id = fmt.Sprintf("r%d", k+1)
 			}
-			ex.assert(fmt.Sprintf("pre:%s->%s#%d#%s", ex.F.Name, calleeName, ord, id), "pre", ex.clauseTagsOf(cl, con), t, cl.Text, ex.P.pos(c))
+			oname := fmt.Sprintf("pre:%s->%s#%d#%s", ex.F.Name, calleeName, ord, id)
+			if dynamic {
+				if !ex.st.dead() {
+					ex.obls = append(ex.obls, &Obligation{Name: oname, Kind: "pre", Tags: ex.clauseTagsOf(cl, con), Goal: t, PC: ex.st.pc, NFacts: len(ex.facts), Text: cl.Text, Pos: ex.P.pos(c), Func: ex.F.Name, Expect: "unsat", Detached: true})
+				}
+				dynReqs = append(dynReqs, reqT{cl.Tags, t})
+				continue
+			}
+			ex.assert(oname, "pre", ex.clauseTagsOf(cl, con), t, cl.Text, ex.P.pos(c))
 		}
 	} else if fi != nil {
 		ex.note("call to " + calleeName + " without contract: results havoc, frame from effect summary")
@@ -417,6 +435,11 @@ func (ex *Exec) callWith(c *ast.CallExpr, calleeName string, con *Contract, sig 
 	if sig.Results().Len() == 1 {
 		names["result"] = rs[0]
 	}
+	for i := range rs {
+		if _, taken := names[fmt.Sprintf("result%d", i)]; !taken {
+			names[fmt.Sprintf("result%d", i)] = rs[i]
+		}
+	}
 	if con != nil {
 		for _, cl := range append(con.Of("ensures"), con.Of("ensures-assumed")...) {
 			env := &SpecEnv{st: ex.st, old: pre, names: names, pkg: pkgOfContract(ex.P, con, fi)}
@@ -424,6 +447,15 @@ func (ex *Exec) callWith(c *ast.CallExpr, calleeName string, con *Contract, sig 
 			if err != nil {
 				ex.contractError(cl, err)
 				continue
+			}
+			if dynamic {
+				var ante []Term
+				for _, r := range dynReqs {
+					if scopedTo(r.tags, cl.Tags) {
+						ante = append(ante, r.t)
+					}
+				}
+				t = Implies(And(ante...), t)
 			}
 			ex.fact(t)
 			if cl.Kind == "ensures-assumed" {
@@ -731,7 +763,25 @@ func (ex *Exec) callExternal(c *ast.CallExpr, o *types.Func, args []Term, argTyp
 	case "regexp.MustCompile":
 		ex.note("regexp.MustCompile assumed not to panic (constant patterns)")
 		r := ufun("reCompile", SInt, args[0])
+		if lit, isConst := constString(ex.info, c.Args[0]); isConst {
+			if re, err := regexp.Compile(lit); err == nil {
+				// the number of capture groups of a constant pattern, computed with the regexp package itself
+				ex.fact(Eq(ufun("reNumSubexp", SInt, r), IntLit(int64(re.NumSubexp()))))
+			}
+		}
 		return []Term{{r.S, ex.U.SortOf(sig.Results().At(0).Type())}}
+	case "regexp.Regexp.FindAllStringSubmatch":
+		rs := ex.freshResults(sig.Results(), "submatch")
+		ss := rs[0].Sort
+		if ss.Kind == KSeq && ss.Elem != nil && ss.Elem.Kind == KSeq {
+			i := ex.U.Fresh("i", SInt)
+			at := app("at_"+ss.Elem.Name, rs[0], i)
+			body := fmt.Sprintf("(forall ((%s Int)) (! (=> (and (<= 0 %s) (< %s (len_%s %s))) (= (len_%s %s) (+ 1 %s))) :pattern (%s)))",
+				i.S, i.S, i.S, ss.Elem.Name, rs[0].S, ss.Elem.Elem.Name, at, ufun("reNumSubexp", SInt, Term{args[0].S, SInt}).S, at)
+			ex.fact(Term{body, SBool})
+			ex.note("regexp FindAllStringSubmatch: every match holds 1 + NumSubexp strings (assumed contract A-REGEXP)")
+		}
+		return rs
 	case "regexp.Compile":
 		r := ufun("reCompile", SInt, args[0])
 		errv := ex.U.Fresh("reErr", SAny)
@@ -750,6 +800,12 @@ func (ex *Exec) callExternal(c *ast.CallExpr, o *types.Func, args []Term, argTyp
 		g := ex.st.ghost
 		ex.st.ghost["opaRejected"] = ex.def("opaRejected", Or(g["opaRejected"], Not(Eq(rs[1], Term{"nilAny", SAny}))))
 		ex.note("OPA PrepareForEval: a module calling a denied built-in is rejected with an error (A-OPA6); the error result is otherwise unconstrained")
+		return rs
+	case strings.HasSuffix(full, "json-gold/ld.JsonLdProcessor.Flatten"):
+		rs := ex.freshResults(sig.Results(), "flatten")
+		g := ex.st.ghost
+		ex.st.ghost["ldRejected"] = ex.def("ldRejected", Or(g["ldRejected"], Not(Eq(rs[1], Term{"nilAny", SAny}))))
+		ex.note("json-gold Flatten: returns an error iff JSON-LD processing rejects the document (assumed contract A-LD)")
 		return rs
 	case strings.HasSuffix(full, "opa/rego.PreparedEvalQuery.Eval"):
 		rs := ex.freshResults(sig.Results(), "eval")
@@ -788,4 +844,19 @@ func (ex *Exec) callExternal(c *ast.CallExpr, o *types.Func, args []Term, argTyp
 		ex.note("external " + full + ": results havoc (assumed not to panic)")
 	}
 	return ex.freshResults(sig.Results(), sanitize(o.Name()))
+}
+
+// scopedTo: a precondition is an antecedent of an ensures of an interface contract when it carries no tag or shares one
+func scopedTo(reqTags, ensTags []string) bool {
+	if len(reqTags) == 0 {
+		return true
+	}
+	for _, a := range reqTags {
+		for _, b := range ensTags {
+			if a == b {
+				return true
+			}
+		}
+	}
+	return false
 }
